@@ -55,6 +55,14 @@ CHECKS = {
    text="Seeded request sets against a reference IP accessory that draws per-characteristic status vectors, 204/207 variants, request-wide statuses with partial lists and garbled entries; results and listener notifications are checked against the accessory's ground truth (which writes it applied, which status it sent).",
    note="Claimed for the IP transport only in this revision (CoAP/BLE result mapping not yet simulated here). Entries with ids but no status are outside the stated quantifier.",
    technique=SIM + "peer-side fault injection with ground-truth oracle"),
+ "C18": dict(level="exploration", design_ref="DESIGN.md section 7 C18",
+   text="Seeded histories of encrypted BLE advertisements (genuine next/skipped, replays, older, beyond the window, wrong key, wrong advertising id, single-bit flips, inner-counter mismatch, truncation, duplicates) fed to the real BleController detection callback for a pairing restored from the cache; an independent executable model of the acceptance rule (own ChaCha20/Poly1305) evaluated on the delivered bytes decides what listeners and description.state_num must show after every advert.",
+   note="State numbers compared as integers without wrap-around (what the code implements). String-format characteristics not broadcast. The model evaluates the same candidate order on the actual bytes, so truncated-tag collisions cannot false-alarm.",
+   technique=SIM + "history search against an executable reference model of the acceptance rule"),
+ "C19": dict(level="exploration", design_ref="DESIGN.md section 7 C19",
+   text="Seeded schedules of waiters (time-outs, cancellations), valid and malformed advertisements and goodbyes on the real IpController/CoAPController (simulated mDNS with a real DNSCache), BleController (advert callback) and the aggregate Controller in virtual time, with no pairing / pairing with / without cached state loaded; reference waiter model incl. the 0.5 s resolve timer and tie handling; reference parse of descriptions; no callback may raise (incl. loop callbacks).",
+   note="Finder ids lower-case. Truncated/random adverts only required not to raise nor wake other ids. zeroconf network engine stubbed (records placed in a real DNSCache, handler fired).",
+   technique=SIM + "virtual-time schedule search with a reference waiter model"),
  "C20": dict(level="fault_enumeration", design_ref="DESIGN.md section 7 C20",
    text="Enumerates crash points of the pairing-file save and of the cache write-through (every file operation x stratified byte prefixes) on a simulated file system, restarts on the surviving files, and checks durability (old or new, never neither), round-trip of every named field and tolerance of torn/garbled caches.",
    note="Process-crash model (buffered bytes may be lost or written as any prefix; rename atomic); no power-loss reordering.",
